@@ -139,7 +139,10 @@ class RangeNode(OperandNode):
         return self.tvalue
 
     def full_address(self, context):
-        addr = self.address.replace('$', '')
+        # Only the coordinates carry absolute markers; a sheet title may
+        # contain a '$' of its own.
+        sheet, sep, coord = self.address.rpartition('!')
+        addr = sheet + sep + coord.replace('$', '')
         if '!' not in addr:
             addr = f'{context.sheet}!{addr}'
         return addr
